@@ -46,6 +46,9 @@ EXTRA_DESC = {
     "v": ("ex_v", (2,), np.int32),
     "o": ("ex_o", (), object),
     "m": ("ex_m", (2, 2), np.float64),
+    # a vector field whose values are *submitted* in a broadcast-compatible shape ((n, 1) / (1,)) — the store's
+    # fancy assignment broadcasts them to the declared shape (2,)
+    "b": ("ex_b", (2,), np.float64),
 }
 
 
@@ -64,6 +67,8 @@ def extra_value(c, tok):
         return np.array([tok, -tok], dtype=np.int32)
     if c == "o":
         return Tok(tok)
+    if c == "b":
+        return np.full(2, tok * 0.5)
     return np.array([[tok, tok + 1], [tok + 2, tok + 3]], dtype=np.float64)
 
 
@@ -71,6 +76,9 @@ def batch_kwargs(layout, toks):
     out = {}
     for c in layout:
         name, shape, dtype = EXTRA_DESC[c]
+        if c == "b":
+            out[name] = np.array([[t * 0.5] for t in toks], dtype=dtype).reshape(len(toks), 1)
+            continue
         arr = np.empty((len(toks),) + shape, dtype=dtype)
         for k, t in enumerate(toks):
             arr[k] = extra_value(c, t)
@@ -831,7 +839,7 @@ def gen_history(rng, case, profile="mixed", nops=None):
 
     boundary = profile in ("mixed", "extreme")
     pool = [gen_meas(rng, case, boundary=boundary) for _ in range(rng.choice([1, 2, 3, 5]))] \
-        if profile in ("percell", "ties", "collide", "cma") else \
+        if profile in ("percell", "ties", "collide", "cma", "gap") else \
         [gen_meas(rng, case, boundary=boundary) for _ in range(rng.choice([3, 6, 12]))]
 
     def objective():
@@ -844,6 +852,10 @@ def gen_history(rng, case, profile="mixed", nops=None):
             return q(rng.choice([1, -1]) * F(2)**rng.choice([-100, -20, 0, 20, 100]) * rng.choice([1, 3, 5]))
         if profile == "cma":
             return dyadic(rng, -4, 12, 8)
+        if profile == "gap":
+            # near-equal, distinct, exactly representable objectives (the threshold is far below them)
+            base = rng.choice([1, 1, 2, 100])
+            return q(F(base) + F(rng.randint(0, 3), 2**15))
         return dyadic(rng, -8, 8, rng.choice([1, 2, 8]))
 
     def row():
@@ -876,12 +888,16 @@ def gen_case(rng, profile="mixed", kinds=("grid", "cvt", "sb"), cma=False, dtype
     case["dtype"] = dtype or rng.choice(["f64", "f64", "f32"])
     if profile == "collide":
         case["dtype"] = "f32"
-    case["layout"] = rng.choice(["", "s", "v", "o", "sv", "svo", "m", "om"])
+    case["layout"] = rng.choice(["", "s", "v", "o", "sv", "svo", "m", "om", "b", "sb"])
     case["sol_dim"] = rng.choice([1, 2, 3])
     case["off"] = q(rng.choice([F(0), F(-8), F(3, 2), F(-100)]))
     if cma and case["kind"] != "sb":
         case["lr"] = q(rng.choice([F(0), F(1, 4), F(1, 2), F(3, 4), F(1), F(1, 10), F(3, 10), F(9, 10), F(1, 100)]))
         case["tmin"] = q(rng.choice([F(0), F(-4), F(2), F(-1, 2)]))
+        if profile == "gap":
+            # a threshold_min so far below the objectives that objective - threshold rounds in the archive dtype
+            case["tmin"] = q(F(-1024) if case["dtype"] == "f32" else rng.choice([F(-2**60), F(-2**54)]))
+            case["lr"] = q(rng.choice([F(0), F(1, 2**20), F(1, 4)]))
     elif case["kind"] != "sb" and rng.random() < 0.3:
         case["lr"] = "1"          # explicit learning_rate=1 with threshold_min=-inf is the elitist setting too
     case["ops"] = gen_history(rng, case, profile)
